@@ -228,10 +228,15 @@ static void Table_Clear(var self) {
 
 static void Table_Assign(var self, var obj) {
   struct Table* t = self;  
+
+  /* ask the source first: if it cannot answer (NULL) nothing is cleared */
+  var ktype = implements_method(obj, Get, key_type) ? key_type(obj) : Ref;
+  var vtype = implements_method(obj, Get, val_type) ? val_type(obj) : Ref;
+
   Table_Clear(t);
   
-  t->ktype = implements_method(obj, Get, key_type) ? key_type(obj) : Ref;
-  t->vtype = implements_method(obj, Get, val_type) ? val_type(obj) : Ref;
+  t->ktype = ktype;
+  t->vtype = vtype;
   t->ksize = Table_Size_Round(size(t->ktype));
   t->vsize = Table_Size_Round(size(t->vtype));
   t->nitems = 0;
